@@ -7,6 +7,7 @@ package main
 import (
 	"fmt"
 	"go/token"
+	"math/big"
 	"sort"
 	"strings"
 	"time"
@@ -45,11 +46,17 @@ type pathEndSig struct{ reason string }
 type unmodelledSig struct{ what string }
 type engineErr string
 
+type PendingAlt struct {
+	Log   []Decision
+	Model map[string]string
+}
+
 type PathResult struct {
 	Harness     string
 	End         string // "completed" | "infeasible" | "panic" | "unmodelled" | "unwind" | "engine-error" | "violation-end"
 	Detail      string
-	Pending     [][]Decision
+	Pending     []PendingAlt
+	FeasUnknown int
 	Violations  []Violation
 	Inconcl     []string
 	Reached     map[string]int
@@ -94,6 +101,8 @@ type Exec struct {
 	recoverOwner []*Frame
 	known        map[string]bool
 	env          *EnvState
+	freshDefs    map[string]FreshDef
+	model        *Model
 	deadline     time.Time
 	wantWit      bool
 }
@@ -164,6 +173,43 @@ func (ex *Exec) freshVar(prefix string, s Sort) *Term {
 	return ex.tf.Var(fmt.Sprintf("%s!%d", prefix, ex.fresh), s)
 }
 
+// setModel stores a solver model (name -> decimal / true / false) as the current witness of PC.
+func (ex *Exec) setModel(m map[string]string) {
+	if m == nil {
+		ex.model = nil
+		return
+	}
+	mv := &Model{V: map[string]*big.Int{}}
+	for k, v := range m {
+		name := strings.Trim(k, "|")
+		switch v {
+		case "true":
+			mv.V[name] = big.NewInt(1)
+		case "false":
+			mv.V[name] = big.NewInt(0)
+		default:
+			if bi, ok := new(big.Int).SetString(v, 10); ok {
+				mv.V[name] = bi
+			}
+		}
+	}
+	ex.model = mv
+}
+
+// modelSays evaluates c under the current model: (value, known)
+func (ex *Exec) modelSays(c *Term) (bool, bool) {
+	if ex.model == nil {
+		return false, false
+	}
+	v, ok := ex.evalTerm(c, ex.model)
+	if !ok {
+		return false, false
+	}
+	return v.Sign() != 0, true
+}
+
+var allVars = []*Term{}
+
 // Branch decides a boolean condition, forking when both sides are feasible.
 func (ex *Exec) Branch(c *Term) bool {
 	if c.IsConst() {
@@ -179,37 +225,85 @@ func (ex *Exec) Branch(c *Term) bool {
 			panic(engineErr(fmt.Sprintf("replay divergence: expected %c got branch at %s", d.Kind, ex.curPos())))
 		}
 		ex.newLog = append(ex.newLog, d)
-		if d.Val == 1 {
-			ex.addPC(c)
-			return true
+		cc := c
+		if d.Val != 1 {
+			cc = ex.tf.Not(c)
 		}
-		ex.addPC(ex.tf.Not(c))
-		return false
+		ex.addPC(cc)
+		if ex.model != nil {
+			if v, known := ex.modelSays(cc); !known || !v {
+				ex.model = nil
+			}
+		}
+		return d.Val == 1
 	}
 	ex.checkDeadline()
-	rT, _ := ex.solver.Check([]*Term{c}, nil)
+	nc := ex.tf.Not(c)
+	mv, known := ex.modelSays(c)
+	var rT, rF SatResult
+	var mT, mF map[string]string
+	if known && mv {
+		rT = RSat
+		rF, mF = ex.solver.CheckFeas([]*Term{nc}, allVars)
+	} else if known && !mv {
+		rF = RSat
+		rT, mT = ex.solver.CheckFeas([]*Term{c}, allVars)
+	} else {
+		rT, mT = ex.solver.CheckFeas([]*Term{c}, allVars)
+		if rT == RUnsat {
+			ex.newLog = append(ex.newLog, Decision{'b', 0})
+			ex.addPC(nc)
+			return false
+		}
+		rF, mF = ex.solver.CheckFeas([]*Term{nc}, allVars)
+	}
 	if rT == RUnsat {
 		ex.newLog = append(ex.newLog, Decision{'b', 0})
-		ex.addPC(ex.tf.Not(c))
+		ex.addPC(nc)
+		if mF != nil {
+			ex.setModel(mF)
+		}
 		return false
 	}
-	nc := ex.tf.Not(c)
-	rF, _ := ex.solver.Check([]*Term{nc}, nil)
 	if rF == RUnsat {
 		ex.newLog = append(ex.newLog, Decision{'b', 1})
 		ex.addPC(c)
+		if mT != nil {
+			ex.setModel(mT)
+		}
 		return true
 	}
 	if rT == RUnknown || rF == RUnknown {
-		ex.noteInconcl("feasibility unknown at " + ex.curPos())
+		// both sides are explored (over-approximation); a violation still needs a sat model
+		ex.res.FeasUnknown++
 	}
 	alt := make([]Decision, len(ex.newLog)+1)
 	copy(alt, ex.newLog)
 	alt[len(ex.newLog)] = Decision{'b', 0}
-	ex.res.Pending = append(ex.res.Pending, alt)
+	// the model of the false side travels with the alternative
+	var altModel map[string]string
+	if mF != nil {
+		altModel = mF
+	} else if known && !mv && ex.model != nil {
+		altModel = ex.modelStrings()
+	}
+	ex.res.Pending = append(ex.res.Pending, PendingAlt{Log: alt, Model: altModel})
 	ex.newLog = append(ex.newLog, Decision{'b', 1})
 	ex.addPC(c)
+	if mT != nil {
+		ex.setModel(mT)
+	} else if !(known && mv) {
+		ex.model = nil
+	}
 	return true
+}
+
+func (ex *Exec) modelStrings() map[string]string {
+	out := map[string]string{}
+	for k, v := range ex.model.V {
+		out[smtName(k)] = v.String()
+	}
+	return out
 }
 
 func (ex *Exec) checkDeadline() {
@@ -242,9 +336,19 @@ func (ex *Exec) Assume(c *Term) {
 		}
 		ex.newLog = append(ex.newLog, d)
 		ex.addPC(c)
+		if ex.model != nil {
+			if v, known := ex.modelSays(c); !known || !v {
+				ex.model = nil
+			}
+		}
 		return
 	}
-	r, _ := ex.solver.Check([]*Term{c}, nil)
+	if v, known := ex.modelSays(c); known && v {
+		ex.newLog = append(ex.newLog, Decision{'s', 1})
+		ex.addPC(c)
+		return
+	}
+	r, m := ex.solver.Check([]*Term{c}, allVars)
 	if r == RUnsat {
 		ex.endPath("infeasible")
 	}
@@ -253,6 +357,7 @@ func (ex *Exec) Assume(c *Term) {
 	}
 	ex.newLog = append(ex.newLog, Decision{'s', 1})
 	ex.addPC(c)
+	ex.setModel(m)
 }
 
 func (ex *Exec) inputTerms() []*Term {
@@ -283,6 +388,11 @@ func (ex *Exec) Assert(c *Term, label string) {
 		}
 		ex.newLog = append(ex.newLog, d)
 		ex.addPC(c)
+		if ex.model != nil {
+			if v, known := ex.modelSays(c); !known || !v {
+				ex.model = nil
+			}
+		}
 		return
 	}
 	ex.res.Obligations++
@@ -292,7 +402,7 @@ func (ex *Exec) Assert(c *Term, label string) {
 		return
 	}
 	ex.checkDeadline()
-	r, model := ex.solver.Check([]*Term{ex.tf.Not(c)}, ex.inputTerms())
+	r, model := ex.solver.Check([]*Term{ex.tf.Not(c)}, allVars)
 	switch r {
 	case RUnsat:
 		ex.res.Discharged++
@@ -306,11 +416,12 @@ func (ex *Exec) Assert(c *Term, label string) {
 		})
 		ex.newLog = append(ex.newLog, Decision{'a', 0})
 		// continue under the assumption that it held, if possible
-		r2, _ := ex.solver.Check([]*Term{c}, nil)
+		r2, m2 := ex.solver.Check([]*Term{c}, allVars)
 		if r2 == RUnsat {
 			ex.endPath("violation-end")
 		}
 		ex.addPC(c)
+		ex.setModel(m2)
 	default:
 		ex.noteInconcl(fmt.Sprintf("assert %q: solver %s (%s)", label, r, ex.solver.LastError))
 		ex.newLog = append(ex.newLog, Decision{'a', 1})
@@ -321,7 +432,7 @@ func (ex *Exec) Assert(c *Term, label string) {
 // reportPanic is called when an interpreted panic escapes the harness.
 func (ex *Exec) reportPanic(p *goPanicSig) {
 	label := "panic: " + p.msg
-	r, model := ex.solver.Check(nil, ex.inputTerms())
+	r, model := ex.solver.Check(nil, allVars)
 	if r == RUnsat {
 		return
 	}
@@ -337,7 +448,7 @@ func (ex *Exec) reportPanic(p *goPanicSig) {
 
 // ---------- running one path ----------
 
-func (w *World) RunPath(wk *Worker, h *Harness, prefix []Decision) (res *PathResult) {
+func (w *World) RunPath(wk *Worker, h *Harness, prefix []Decision, startModel map[string]string) (res *PathResult) {
 	tf := wk.tf
 	tf.intern = map[string]*Term{}
 	tf.bytes = [256]*Term{}
@@ -346,7 +457,7 @@ func (w *World) RunPath(wk *Worker, h *Harness, prefix []Decision) (res *PathRes
 	wk.solver.Reset()
 	ex := &Exec{
 		w: w, wk: wk, tf: tf, solver: wk.solver, harness: h,
-		log: prefix, inNames: map[string]int{},
+		log: prefix, inNames: map[string]int{}, freshDefs: map[string]FreshDef{},
 		globals: map[*ssa.Global]*Cell{}, initDone: map[*ssa.Package]bool{},
 		maxInstrs: h.MaxInstrs, unwind: h.Unwind, mapOrder: "insertion",
 		known: w.known,
@@ -357,6 +468,7 @@ func (w *World) RunPath(wk *Worker, h *Harness, prefix []Decision) (res *PathRes
 	res = &PathResult{Harness: h.Name, Reached: map[string]int{}, Covers: map[string]bool{}, Intrinsics: map[string]int{}, Funcs: map[string]bool{}}
 	ex.res = res
 	ex.env = newEnvState(ex)
+	ex.setModel(startModel)
 	defer func() {
 		res.Instrs = ex.instrs
 		if r := recover(); r != nil {
@@ -389,7 +501,7 @@ func (w *World) RunPath(wk *Worker, h *Harness, prefix []Decision) (res *PathRes
 	res.End = "completed"
 	// witness for vacuity + sample
 	if wk.needWitness(h.Name) {
-		r, m := ex.solver.Check(nil, ex.inputTerms())
+		r, m := ex.solver.Check(nil, allVars)
 		if r == RSat {
 			res.Witness = ex.modelToInputs(m)
 			var pcs []string
